@@ -162,6 +162,14 @@ func (c *Ctx) run() {
 			}
 			c.assume("true", tv.T)
 		}
+		for _, tr := range con.Track {
+			tv, err := ev.eval(tr.Expr)
+			if err != nil {
+				c.unsupportedf("track %q: %v", tr.Text, err)
+				continue
+			}
+			c.track["t."+tr.Text] = tv.T
+		}
 	}
 	// vacuity guard: the precondition together with the background must be satisfiable
 	if con != nil && len(con.Requires) > 0 && c.wants("POST") {
@@ -283,5 +291,9 @@ func describeMods(ms *ModSet) string {
 	if ms.Top {
 		return "TOP"
 	}
-	return strings.Join(sortedKeys(ms.Arrays), ",") + " fresh:" + strings.Join(sortedKeys(ms.Fresh), ",")
+	out := strings.Join(sortedKeys(ms.Arrays), ",") + " fresh:" + strings.Join(sortedKeys(ms.Fresh), ",")
+	for pi, arrs := range ms.ByParam {
+		out += fmt.Sprintf(" param%d:%s", pi, strings.Join(sortedKeys(arrs), ","))
+	}
+	return out
 }
